@@ -30,3 +30,4 @@ def run(ck):
     conv.scaled_value_type(ck, "C17.R8")
     fresh.no_hidden_state(ck, "C20.R8")                  # results depend on the documented state only (no caches / memos)
     conv.rescaling_siblings(ck, "C10.R1", "C10.R2")     # equal() stores through the map unless the source is a fixed-point object
+    conv.derived_attributes(ck, "C17.R2")
